@@ -105,6 +105,9 @@ type c15Script struct {
 	// the authorization server the specification's behaviour ends up with: the location of the
 	// last FetchPRM step, or "fallback"
 	SpecAS string
+	// UnreadASM: the outcomes the environment holds ready at the well-known locations after the one whose
+	// outcome ended the discovery (the specification's code never reads them; they are served all the same)
+	Unread map[string]string
 	// (steps the behaviour does not contain get defaults that let a flow that wrongly continues run
 	// to completion: dynamic registration succeeds, state/iss are as expected, the token endpoint answers)
 	// strict expectations
@@ -116,7 +119,9 @@ type c15Script struct {
 
 func c15Parse(id string, steps []c15Step) *c15Script {
 	s := &c15Script{ID: id, Ch: "hdr_https", Mcp: "https", PRM: map[string]string{}, ASM: map[string]c15ASMChoice{},
-		RC: "dcr", P: "na", DCR: "201", St: "equal", Iss: "absent", Tok: "good", SpecAS: "fallback", ExpReqs: [][]string{}}
+		RC: "dcr", P: "na", DCR: "201", St: "equal", Iss: "absent", Tok: "good", SpecAS: "fallback", ExpReqs: [][]string{},
+		Unread: map[string]string{}}
+	lastASM := ""
 	for _, st := range steps {
 		a := st.Args
 		switch st.Name {
@@ -132,8 +137,18 @@ func c15Parse(id string, steps []c15Step) *c15Script {
 			s.SpecAS = "fallback"
 		case "FetchASM":
 			s.ASM[c15S(a[0])] = c15ASMChoice{O: c15S(a[1]), IP: c15B(a[2]), CIMD: c15B(a[3]), RG: c15S(a[4])}
+			lastASM = c15S(a[0])
 			if c15S(a[1]) != "skip" {
 				s.ExpReqs = append(s.ExpReqs, []string{"asm", c15S(a[0])})
+			}
+		case "UnreadASM":
+			// OAuthFlow!ASMList: the locations after the one of the last FetchASM step, in order
+			rest := map[string][]string{"oauth": {"oidc"}, "oauth_ins": {"oidc_ins", "oidc_app"}, "oidc_ins": {"oidc_app"}}[lastASM]
+			for i, loc := range rest {
+				if o := c15S(a[i]); o != "-" {
+					s.ASM[loc] = c15ASMChoice{O: o, RG: "ep"}
+					s.Unread[loc] = o
+				}
 			}
 		case "Register":
 			s.RC, s.P, s.DCR = c15S(a[0]), c15S(a[1]), c15S(a[2])
@@ -314,6 +329,7 @@ type c15Route struct {
 	asked string  // resource / issuer this location is the well-known location of
 	from  *c15Doc // document the URL was taken or derived from (nil: configuration / challenge)
 	issOf string  // issuer of the authorization server the endpoint belongs to
+	as    string  // the authorization server (the identifier discovery was run for) the endpoint belongs to
 	adv   bool
 }
 
@@ -326,6 +342,7 @@ type c15Served struct {
 	Script bool   `json:"script"`
 	IP     bool   `json:"ip"`
 	Ident  string `json:"ident"`
+	For    string `json:"for"` // the resource / authorization server identifier this well-known location belongs to
 }
 
 type c15Req struct {
@@ -338,6 +355,8 @@ type c15Req struct {
 	Cred   string `json:"cred"`
 	Pre    string `json:"pre"`
 	Grant  string `json:"grant"`
+	AS     string `json:"as"`     // reg/token: the authorization server the endpoint belongs to
+	Predef bool   `json:"predef"` // a predefined (2025-03-26 "no metadata") endpoint, not one named by a document
 }
 
 type c15Auth struct {
@@ -349,6 +368,8 @@ type c15Auth struct {
 	Pre    string `json:"pre"`
 	Adv    bool   `json:"adv"`
 	S256   bool   `json:"s256"`
+	AS     string `json:"as"`
+	Predef bool   `json:"predef"`
 }
 
 type c15Ares struct {
@@ -385,6 +406,7 @@ type c15Cfg struct {
 	Status int    `json:"status"`
 	Header string `json:"header"`
 	McpURL string `json:"mcpurl"`
+	Unread string `json:"unread"` // "loc=outcome,..." of the UnreadASM step ("" if none)
 }
 
 type c15Line struct {
@@ -704,7 +726,7 @@ func (w *c15World) addAS(asu string, from *c15Doc, scripted bool) {
 	for kind, suffix := range map[string]string{"auth": "/authorize", "token": "/token", "reg": "/register"} {
 		u := asu + suffix
 		if _, dup := w.routes[u]; !dup {
-			w.routes[u] = &c15Route{kind: kind, loc: "predef", from: from, issOf: asu}
+			w.routes[u] = &c15Route{kind: kind, loc: "predef", from: from, issOf: asu, as: asu}
 		}
 	}
 }
@@ -818,7 +840,7 @@ func (w *c15World) buildASM(loc string, ch c15ASMChoice, asked string) *c15Doc {
 		m[f] = u
 		d.urls = append(d.urls, u)
 		if kind := map[string]string{"auth": "auth", "tok": "token", "reg": "reg"}[k]; kind != "" {
-			w.routes[u] = &c15Route{kind: kind, loc: loc, from: d, issOf: iss, adv: ch.IP}
+			w.routes[u] = &c15Route{kind: kind, loc: loc, from: d, issOf: iss, as: asked, adv: ch.IP}
 		}
 	}
 	if cls["doc"] != "" {
@@ -980,7 +1002,7 @@ func (w *c15World) serve(d *c15Doc, rt *c15Route) {
 	if d.obsIdx != 0 || !d.isDoc {
 		return
 	}
-	f := c15Served{Kind: d.kind, Var: d.variant, Loc: d.loc, Pkce: d.pkce, IP: d.ip, Ident: d.ident}
+	f := c15Served{Kind: d.kind, Var: d.variant, Loc: d.loc, Pkce: d.pkce, IP: d.ip, Ident: d.ident, For: rt.asked}
 	f.Match = c15Rel(d.ident, rt.asked)
 	for _, u := range d.urls {
 		if c15IsScript(u) {
@@ -1020,6 +1042,7 @@ func (w *c15World) RoundTrip(req *http.Request) (*http.Response, error) {
 		return c15Resp(req, 404, "text/plain", []byte("no such scripted location")), nil
 	}
 	rec.Kind, rec.Loc = rt.kind, rt.loc
+	rec.AS, rec.Predef = rt.as, rt.loc == "predef"
 	if rt.from != nil {
 		rec.Doc = -1 // resolved at the end (needs obsIdx of rt.from)
 	}
@@ -1110,6 +1133,7 @@ func (w *c15World) fetch(ctx context.Context, args *auth.AuthorizationArgs) (*au
 	}
 	if rt := w.routes[c15NoQuery(args.URL)]; rt != nil && rt.kind == "auth" {
 		issInUse, a.Adv = rt.issOf, rt.adv
+		a.AS, a.Predef = rt.as, rt.loc == "predef"
 		if rt.from != nil {
 			a.Doc = -1
 		}
@@ -1240,7 +1264,13 @@ func c15Run(s *c15Script, seed uint64) *c15Line {
 	if w.preIss != "" {
 		preRel = c15Rel(w.preIss, w.specAS)
 	}
-	ln.Cfg = c15Cfg{RC: rc, P: s.P, PreIss: w.preIss, PreRel: preRel, InitTS: init != nil, Ch: s.Ch, Mcp: s.Mcp, Status: status,
+	unread := []string{}
+	for _, loc := range []string{"oidc", "oidc_ins", "oidc_app"} {
+		if o, ok := s.Unread[loc]; ok {
+			unread = append(unread, loc+"="+o)
+		}
+	}
+	ln.Cfg = c15Cfg{Unread: strings.Join(unread, ","), RC: rc, P: s.P, PreIss: w.preIss, PreRel: preRel, InitTS: init != nil, Ch: s.Ch, Mcp: s.Mcp, Status: status,
 		Header: strings.Join(hdrs, " || "), McpURL: w.mcpURL}
 	func() {
 		defer func() {
